@@ -66,7 +66,36 @@ def _apply_renames(rng, root, files, dirs, n, tag):
     return ren, classes
 
 
+def _nested_namesake(cs):
+    """a file of the outer history is renamed to a name that a file of a nested history also has (relative to that nested
+    history): the nested file has nothing to do with the rename"""
+    rng = cs.rng
+    d = cs.dir()
+    root = os.path.join(d, world.root_name(rng))
+    sub = rng.choice(["sub", "Card A", "K"])
+    name = rng.choice(["a.txt", "clip 1.mov", "x"])
+    os.makedirs(os.path.join(root, sub))
+    for rel, data in ((sub + "/" + name, b"nested" + rng.randbytes(3)), ("b-" + name, b"outer" + rng.randbytes(3)), ("other.bin", b"o" + rng.randbytes(3))):
+        with open(os.path.join(root, rel), "wb") as f:
+            f.write(data)
+    fm = world.gen_formats(rng)[:2]
+    steps = []
+    for tgt in ([os.path.join(root, sub)], [root]) if rng.random() < 0.7 else ([root], [os.path.join(root, sub)], [root]):
+        r = drive.run("create", tgt + world.fmt_args(fm))
+        steps.append(f"create {os.path.relpath(tgt[0], root)} => {r.exit}")
+        if r.exit != 0:
+            cs.skip("prior-seal-failed")
+            return
+    os.rename(os.path.join(root, "b-" + name), os.path.join(root, name))
+    steps.append(f"rename 'b-{name}' -> '{name}' (a nested history holds '{sub}/{name}')")
+    cs.count("renamed_to_name_of_nested_file")
+    ren = {"b-" + name: name}
+    _dr_step(cs, root, fm, ren, {"steps": steps, "renames": ren, "classes": ["nested-namesake"]}, steps, "same", {"nested-namesake"}, 1, "nested-namesake")
+
+
 def run_case(cs):
+    if cs.rng.random() < 0.05:
+        return _nested_namesake(cs)
     rng = cs.rng
     tree = world.gen_tree(rng, max_files=8, max_dirs=rng.choice([0, 2, 4]), min_files=2, classes=["plain", "plain", "space", "uni", "punct"], distinct=True)
     if rng.random() < 0.25:
